@@ -97,6 +97,9 @@ func c03Queries(cl adapt.Client, m *model.Client, st *mon.HistoryStats) []model.
 			if ix.Hash == "h" {
 				pool = ixHashPool[:1]
 			}
+			if ix.Hash == "r" {
+				pool = []string{"1", "10"}
+			}
 			for _, hv := range pool {
 				for _, rev := range []bool{false, true} {
 					op := queryOp(name, ix.Name, keyCondEq(ix.Hash, ":h"), nil, val.Item{":h": val.Str(hv)}, rev, rrCanon)
